@@ -291,6 +291,14 @@ func scripted() []struct {
 			stmt(Event{Sid: 0, Stmts: []Stmt{{Kind: "ins", Mode: "insert", Rows: []InsRow{{V: VInt(7), S: n}}}}}),
 			stmt(Event{Sid: 1, Stmts: []Stmt{{Kind: "ins", Mode: "insert", Rows: []InsRow{{V: VInt(8), S: n}}}}}),
 			commit(1), commit(0)}},
+		// deprecateIndexEntries inside one transaction: a value given up by one row and taken by another
+		// (non-unique and unique index), and an update back to the old value
+		{plain, []Event{nq, ins(0, "insert", 1, VInt(10), VStr("a")), ins(0, "insert", 2, VInt(20), VStr("b")), begin(0),
+			stmt(upd(0, 1, false, VStr("c"))), stmt(upd(0, 2, false, VStr("a"))), commit(0),
+			uq, begin(0), stmt(upd(0, 1, true, VInt(30))), stmt(upd(0, 1, true, VInt(10))), commit(0),
+			begin(0), stmt(upd(0, 1, true, VInt(30))), stmt(ins(0, "insert", 3, VInt(10), n)), commit(0),
+			{Act: "auto", Stmts: []Stmt{{Kind: "upd", ColV: false, X: VStr("q")}}},
+			{Act: "auto", Stmts: []Stmt{{Kind: "ins", Mode: "upsert", Rows: []InsRow{{HasID: true, ID: VInt(1), V: VInt(10), S: VStr("w")}, {HasID: true, ID: VInt(2), V: VInt(20), S: VStr("e")}}}}}}},
 		// explicit keys around table.maxPK: equal to it after its row was deleted, one below, one above
 		{Cfg{AutoInc: true, MaxLen: 2}, []Event{
 			{Act: "auto", Stmts: []Stmt{{Kind: "ins", Mode: "insert", Rows: []InsRow{{V: VInt(1), S: n}, {V: VInt(2), S: n}, {V: VInt(3), S: n}}}}},
